@@ -311,6 +311,32 @@ func runC20(c *Ctx) {
 	for fi := 0; fi < nfiles; fi++ {
 		cfgJSON, cfgSQL, cfgPriv := c.rng.Chance(40), !c.rng.Chance(25), !c.rng.Chance(25)
 		var structs []ptStruct
+		if fi < 8 {
+			// every combination of json / sql tags (absent, a name, "-") on fields without a plenc tag,
+			// under every combination of the -json and -sql flags: which key excludes a field
+			cfgJSON, cfgSQL, cfgPriv = fi&1 != 0, fi&2 != 0, fi&4 == 0
+			var sys ptStruct
+			sys.name = "Combos"
+			n := 0
+			for _, j := range []string{"", "jn", "-"} {
+				for _, q := range []string{"", "col", "-"} {
+					f := ptField{names: []string{fmt.Sprintf("C%d", n)}, typ: "int", rtyp: reflect.TypeOf(0)}
+					if j != "" {
+						f.tags = append(f.tags, ptTag{"json", j, ""})
+					}
+					if q != "" {
+						f.tags = append(f.tags, ptTag{"sql", q, ""})
+					}
+					if n%2 == 1 && len(f.tags) == 2 {
+						f.tags[0], f.tags[1] = f.tags[1], f.tags[0] // either order of the keys
+					}
+					f.hasLit = len(f.tags) > 0
+					sys.fields = append(sys.fields, f)
+					n++
+				}
+			}
+			structs = append(structs, sys)
+		}
 		for k := 0; k < 1+c.rng.Intn(4); k++ {
 			s := genPtStruct(c.rng, fmt.Sprintf("S%d", k))
 			switch c.rng.Intn(8) {
@@ -359,6 +385,9 @@ func runC20(c *Ctx) {
 				outer.local = outer.local || false
 				structs = append(structs, in)
 			}
+		}
+		if fi < 8 {
+			structs = structs[:1] // the systematic struct alone: an unparseable tag elsewhere in the file stops the tool
 		}
 		src := renderFile(structs)
 		if _, err := format.Source([]byte(src)); err != nil {
